@@ -436,6 +436,8 @@ def run(ctx):
         sd, nominal = success[s.key]
         bad = judge_c11(s, pre, post, out["obs"], res, mode, sd, nominal)
         kc = kindclass(mode, res)
+        if len(triggered) >= 2:
+            kc = "double-" + kc          # a second fault (e.g. inside the code's own clean-up) is a different finding than a single one
         ctx.count((s.spec, s.variant, s.config, L.mode_key({k: v for k, v in mode.items() if k != "presnap"})), traces=1)
         for cond, text in bad:
             sig = "%s:%s:%s" % (s.kw["op"], kc, cond)
